@@ -186,6 +186,98 @@ pub fn process_case(ctx: &Ctx, text: &str, k: usize, tag: u64) -> CaseResult {
     }
 }
 
+/// the real binary: every printing subcommand three times with varied environment, and the
+/// files written by `scc codegen` in two different working directories
+pub fn binary_case(ctx: &Ctx, exe: &std::path::Path, text: &str, tag: u64) -> CaseResult {
+    let file = ctx.scratch.join(format!("detbin{tag:016x}.sc"));
+    if std::fs::write(&file, text).is_err() {
+        return CaseResult::Discard("infra: cannot write scratch file".into());
+    }
+    let fail = |what: &str, a: &str, b: &str| {
+        CaseResult::Fail(Failure {
+            kind: "binary".into(),
+            summary: format!("two runs of `scc {what}` on the same file differ: {}", first_diff(a, b)),
+            details: json!({"source": text, "first_difference": first_diff(a, b)}),
+        })
+    };
+    for sub in ["compile", "focus", "shrink", "linearize"] {
+        let mut outs: Vec<String> = vec![];
+        for i in 0..3 {
+            let mut cmd = Command::new(exe);
+            cmd.arg("-n").arg(sub).arg(&file).stdin(Stdio::null()).stderr(Stdio::null());
+            match i {
+                1 => {
+                    cmd.env("LANG", "C").env("COLUMNS", "200").current_dir("/");
+                }
+                2 => {
+                    cmd.env("HOME", "/nonexistent").env("TERM", "dumb").env("TZ", "Asia/Tokyo");
+                }
+                _ => {}
+            }
+            match cmd.output() {
+                Ok(o) => {
+                    if !o.status.success() {
+                        let _ = std::fs::remove_file(&file);
+                        return CaseResult::Discard("program not accepted".into());
+                    }
+                    outs.push(String::from_utf8_lossy(&o.stdout).into_owned());
+                }
+                Err(e) => return CaseResult::Discard(format!("infra: {e}")),
+            }
+        }
+        for o in &outs[1..] {
+            if *o != outs[0] {
+                let _ = std::fs::remove_file(&file);
+                return fail(sub, &outs[0], o);
+            }
+        }
+    }
+    // files written by the code generator (the x86-64 command stops at the missing assembler after
+    // writing the assembly file)
+    let mut classes = vec!["binary: printing subcommands x3".to_string()];
+    for backend in ["rv64", "x86-64"] {
+        let mut written: Vec<String> = vec![];
+        for i in 0..2 {
+            let dir = ctx.scratch.join(format!("detbin{tag:016x}_{backend}_{i}"));
+            let _ = std::fs::create_dir_all(&dir);
+            let mut cmd = Command::new(exe);
+            cmd.arg("-n").arg("codegen").arg(&file).arg(backend).current_dir(&dir).stdin(Stdio::null()).stdout(Stdio::null()).stderr(Stdio::null());
+            let _ = cmd.output();
+            let mut all = String::new();
+            let mut stack = vec![dir.clone()];
+            let mut files = vec![];
+            while let Some(d) = stack.pop() {
+                if let Ok(rd) = std::fs::read_dir(&d) {
+                    for e in rd.flatten() {
+                        let p = e.path();
+                        if p.is_dir() {
+                            stack.push(p);
+                        } else if p.extension().map_or(false, |x| x == "asm") {
+                            files.push(p);
+                        }
+                    }
+                }
+            }
+            files.sort();
+            for f in files {
+                all.push_str(&std::fs::read_to_string(&f).unwrap_or_default());
+            }
+            let _ = std::fs::remove_dir_all(&dir);
+            written.push(all);
+        }
+        if written[0] != written[1] {
+            let _ = std::fs::remove_file(&file);
+            return fail(&format!("codegen {backend}"), &written[0], &written[1]);
+        }
+        if !written[0].is_empty() {
+            classes.push(format!("binary: assembly file {backend}"));
+        }
+    }
+    let _ = std::fs::remove_file(&file);
+    let n = instances(text);
+    CaseResult::Pass { nontrivial: n >= 3, hash: hash_str(text) ^ 0xb1, classes, sample: None }
+}
+
 pub fn history_case(texts: &[String]) -> CaseResult {
     // compile the last text alone (twice) and after the others: equal up to label numbering
     let Some(last) = texts.last() else { return CaseResult::Discard("empty".into()) };
@@ -221,8 +313,8 @@ pub fn check(ctx: &Ctx) -> i32 {
     let start = Instant::now();
     let mut ev = Evidence::default();
     let k = ctx.tier.pick(8, 32);
-    ev.rule = format!("(a) each generated program is compiled in {k} fresh processes (`sccv stage`, i.e. the repository's library stages; each process draws fresh hash seeds; environment variables and working directory varied) and the concatenation of printed Core, uniquified Core, focused Core, AxCut, linearized AxCut and the assembly of all three backends must be byte-identical; (b) histories: a program is compiled alone, twice, and after 1..3 other programs in one process; all outputs must be identical after renumbering the generated label counters (lab<n>, <Type>_<n>) by first occurrence. Non-trivial: (a) >= 3 polymorphic type instances in the source (hash order can matter), (b) history length >= 2; distinct by source hash. Hash seeds cannot be chosen: processes sample them.");
-    ev.assumptions = vec!["`scc` itself is not run: the check calls the same library functions the CLI calls".into()];
+    ev.rule = format!("(a) each generated program is compiled in {k} fresh processes (`sccv stage`, i.e. the repository's library stages; each process draws fresh hash seeds; environment variables and working directory varied) and the concatenation of printed Core, uniquified Core, focused Core, AxCut, linearized AxCut and the assembly of all three backends must be byte-identical; (b) histories: a program is compiled alone, twice, and after 1..3 other programs in one process; all outputs must be identical after renumbering the generated label counters (lab<n>, <Type>_<n>) by first occurrence. Non-trivial: (a) >= 3 polymorphic type instances in the source (hash order can matter), (b) history length >= 2; distinct by source hash. (c) the real `scc` binary: `compile`, `focus`, `shrink`, `linearize` three times each with varied environment and working directory must print identical text, and the assembly files written by `scc codegen rv64|x86-64` in two different working directories must be identical. Hash seeds cannot be chosen: processes sample them.");
+    ev.assumptions = vec!["(a) and (b) call the library functions the CLI calls; (c) runs the binary built from the same tree".into()];
     let cfg = cfg_for(ctx);
     let mut report = Report { violations: vec![], infra_errors: vec![] };
     let n = ctx.tier.pick(150, 2000);
@@ -250,6 +342,24 @@ pub fn check(ctx: &Ctx) -> i32 {
             report.violations.push(write_replay(ctx, "history", &bytes, &f));
         }
     }
+    // (c) the real binary
+    if report.violations.is_empty() {
+        if let Some(exe) = super::cli::scc_exe(ctx) {
+            let n3 = ctx.tier.pick(60, 1500);
+            let run3 = |b: &[u8]| {
+                let (p, _) = gen_program(b, &cfg);
+                let text = emit_program(&p);
+                binary_case(ctx, &exe, &text, hash_str(&text))
+            };
+            let out3 = drive(&mut ev, ctx.seed, 217, n3, 200, 3000, 20, &run3);
+            if let Some((bytes, f)) = out3.failure {
+                eprintln!("{}", f.summary);
+                report.violations.push(write_replay(ctx, "binary", &bytes, &f));
+            }
+        } else {
+            report.infra_errors.push("the scc binary is not built (harness/target/scc); run ./check, not the harness directly".into());
+        }
+    }
     let infra: u64 = ev.discards.iter().filter(|(k, _)| k.starts_with("infra")).map(|(_, v)| *v).sum();
     if infra > 0 {
         report.infra_errors.push(format!("{infra} cases hit an infrastructure problem (see evidence)"));
@@ -259,6 +369,12 @@ pub fn check(ctx: &Ctx) -> i32 {
 
 pub fn replay(ctx: &Ctx, sub: &str, bytes: &[u8], _case: &serde_json::Value) -> CaseResult {
     let cfg = cfg_for(ctx);
+    if sub.starts_with("binary") {
+        let Some(exe) = super::cli::scc_exe(ctx) else { return CaseResult::Discard("infra: scc binary not built".into()) };
+        let (p, _) = gen_program(bytes, &cfg);
+        let text = emit_program(&p);
+        return binary_case(ctx, &exe, &text, hash_str(&text));
+    }
     if sub.starts_with("history") {
         let parts = 1 + (bytes.first().copied().unwrap_or(0) as usize % 4);
         let chunk = (bytes.len() / parts).max(1);
